@@ -345,7 +345,7 @@ pub fn main(seed: u64, tier: &str, only: Option<&str>) {
         run_wasm("replay", &out::unhex(o), &mut stats);
         return;
     }
-    let n = if tier == "thorough" { 4000 } else { 300 };
+    let n = if tier == "thorough" { 4000 * crate::out::thorough_scale() } else { 300 };
     for case in 0..n {
         let mut rng = Rng::new(seed ^ 0x30d, case as u64);
         let mut g = if case % 4 == 0 { GenCfg::mvp() } else if case % 4 == 1 { GenCfg::full() } else { GenCfg::random(&mut rng) };
